@@ -3,12 +3,25 @@ import TongoProofs.Lemmas.TlCompact
 import TongoGen.LiteApi
 import TongoGen.TlLength
 import TongoProofs.Lemmas.GenTiesB
+import TongoProofs.Lemmas.TlBindings
+import TongoGen.TlBindingsAll
 /-! Property C10 — the lite-server bindings speak exactly the wire format of `lite_api.tl`.
 
 `Gen.liteApi` is the schema of the CURRENT `liteclient/lite_api.tl` (translator X3, regenerated on every run, tied to
 the raw file by `Gen.liteapi_render` and by the run-time op `tl.schema`). The theorems instantiate the schema-level
 semantics (C09) at that schema and add the lite-client layer: request envelope, request decoder table, hand-written
-codecs. The Go bindings are tied to this model by the correspondence ops `tl.*` (props/C10.py). -/
+codecs.
+
+The Go bindings enter the theorems through translator X7 (`harness/cmd/extract/tlbindings.go`): every generated
+`MarshalTL`/`UnmarshalTL`, every `(*Client).LiteServer*` method and the table `taggedRequestDecodeFunctions` of the CURRENT
+liteclient/generated.go become the Lean value `Gen.tlBindings` (step sequences with their guards `(t.Flag>>bit)&1`, tag
+literals, request-id literals); `Tl.Bind.marshalGo/unmarshalGo/runMarshal/runUnmarshal/clientRequest/clientAnswer/
+decoderTable` give these steps a semantics; `steps_eq_schema` is proved once for every schema and every bindings value the
+decidable matcher `agreeAll` accepts; the matcher is discharged by the kernel on every run, one obligation per type and per
+function (`Gen.bind_type_i`, `Gen.bind_func_i`, collected in `Gen.bindings_agree`). What stays outside the theorems: the
+translator itself (trusted; it refuses every statement outside the shapes it knows), the reflection-based helpers
+`tl.Marshal/tl.Unmarshal` on builtin types, `liteServerRequest`, and the hand-written codecs — tied by the correspondence
+ops `tl.*` (props/C10.py). -/
 namespace Tongo.C10
 open Tongo Tongo.Tl Tongo.Gen
 
@@ -184,6 +197,92 @@ theorem liteapi_functions_covered :
   unfold wfSchemaB at h
   simp only [Bool.and_eq_true] at h
   exact h.2
+
+
+/-! ### The generated Go bindings (translator X7, `Gen.tlBindings`) -/
+
+open Tongo.Tl.Bind in
+/-- **steps_eq_schema** (proved once, for every schema `S` and every bindings value `B` the matcher accepts): for a type
+`ty` whose references resolve (`tyRefsOk`) and every value `v` the schema encodes to `bs`, the Go value `rep S ty v` that
+carries `v` in the generated structs is (1) marshalled by the generated `MarshalTL` step sequences to exactly `bs` and
+(2) read back by the generated `UnmarshalTL` step sequences from `bs` followed by anything, leaving exactly the rest —
+which is also what the schema decoder returns (3). -/
+theorem steps_eq_schema (S : Schema) (B : Bindings) (hwf : WFSchema S) (hA : agreeAll S B = true) (ty : Ty) (v : Val)
+    (bs : Bytes) (fuel : Nat) (hty : ty ≠ .tru) (hrefs : tyRefsOk S B ty = true) (henc : encode S ty v = some bs)
+    (hfuel : 3 * v.depth ≤ fuel) :
+    marshalGo B fuel (goTyOf ty) (rep S ty v) = some bs ∧
+    (∀ rest, unmarshalGo B fuel (goTyOf ty) (bs ++ rest) = .ok (rep S ty v, rest)) ∧
+    (∀ rest, decode S fuel ty (bs ++ rest) = .ok (v, rest)) :=
+  ⟨(marshal_all S B (typesAgree_of_agreeAll hA)).1 ty v bs fuel hty hrefs henc hfuel,
+   fun rest => (unmarshal_all S B hwf (typesAgree_of_agreeAll hA)).1 ty v bs rest fuel hty hrefs henc hfuel,
+   fun rest => C09.tl_decode_encode S hwf ty v bs rest fuel henc (by omega)⟩
+
+open Tongo.Tl.Bind in
+/-- the same at the level of ONE generated struct: the `MarshalTL` body of the struct `<Ctor>C` of a single-constructor
+type writes `encodeFields` of that constructor, its `UnmarshalTL` body (started on the zero struct) reads it back -/
+theorem method_steps_eq_schema (S : Schema) (B : Bindings) (hwf : WFSchema S) (hA : agreeAll S B = true) (d : Decl)
+    (hd : d ∈ S.types) (h1 : (S.ctorsOf d.result).length = 1) (vs : List Val) (bs : Bytes) (fuel : Nat)
+    (henc : encodeFields S d.fields [] vs = some bs) (hfuel : 3 * depthList vs + 1 ≤ fuel) :
+    ∃ m, B.find (camelGo d.ctor ++ "C") = some (.simple m) ∧
+      runMarshal B fuel m.fields m.marshal (repFields S d.fields vs) = some bs ∧
+      ∀ rest, runUnmarshal B fuel m.fields m.unmarshal (zeroStruct m.fields) (bs ++ rest)
+        = .ok (repFields S d.fields vs, rest) := by
+  obtain ⟨m, hm, hag⟩ := bare_binding (typesAgree_of_agreeAll hA) hd h1
+  exact ⟨m, hm, method_marshal (typesAgree_of_agreeAll hA) hag vs bs fuel henc hfuel,
+    fun rest => method_unmarshal hwf (typesAgree_of_agreeAll hA) hag vs bs rest fuel henc hfuel⟩
+
+/-- regenerated obligation (75 kernel-decided obligations, one per type and per function of lite_api.tl): the bindings
+extracted from the current generated.go match the schema of the current lite_api.tl -/
+theorem liteapi_bindings_agree : Bind.agreeAll liteApi tlBindings = true := bindings_agree
+
+/-- `steps_eq_schema` for the CURRENT generated.go against the CURRENT lite_api.tl -/
+theorem liteapi_steps_eq_schema (ty : Ty) (v : Val) (bs : Bytes) (fuel : Nat) (hty : ty ≠ .tru)
+    (hrefs : Bind.tyRefsOk liteApi tlBindings ty = true) (henc : encode liteApi ty v = some bs)
+    (hfuel : 3 * v.depth ≤ fuel) :
+    Bind.marshalGo tlBindings fuel (Bind.goTyOf ty) (Bind.rep liteApi ty v) = some bs ∧
+    (∀ rest, Bind.unmarshalGo tlBindings fuel (Bind.goTyOf ty) (bs ++ rest) = .ok (Bind.rep liteApi ty v, rest)) ∧
+    (∀ rest, decode liteApi fuel ty (bs ++ rest) = .ok (v, rest)) :=
+  steps_eq_schema liteApi tlBindings wf_liteapi bindings_agree ty v bs fuel hty hrefs henc hfuel
+
+/-- **request wrappers**: for every function `f` of lite_api.tl, the payload the generated method
+`(*Client).<CamelCase f>` hands to `liteServerRequest` — its request-id literal, then `MarshalTL` of its request struct —
+is `encodeRequest liteApi f ps`, the bytes `request_table_sound` and `request_envelope` speak about -/
+theorem liteapi_client_request (f : String) (d : Decl) (hf : liteApi.func? f = some d) (ps : List Val) (bs : Bytes)
+    (fuel : Nat) (henc : encodeRequest liteApi f ps = some bs) (hfuel : 3 * depthList ps + 2 ≤ fuel) :
+    ∃ m, tlBindings.methods.find? (fun m => m.name == Bind.camelGo f) = some m ∧
+      Bind.clientRequest tlBindings fuel m (.tuple (Bind.repFields liteApi d.fields ps)) = some bs :=
+  Bind.client_request_eq bindings_agree f d hf ps bs fuel henc hfuel
+
+theorem liteapi_error_single : Bind.tyRefsOk liteApi tlBindings (.bare errorCtor) = true := by decide +kernel
+
+/-- **answers**: for every function `f` of lite_api.tl, the generated method returns (1) for the encoding of ANY value of
+the result type, followed by anything, the Go value carrying that value (tag literal of a single-constructor result, or
+the sum type's `switch tag`); (2) for the encoding of any `liteServer.error`, that error (error literal tested first) -/
+theorem liteapi_client_answer (f : String) (d : Decl) (hf : liteApi.func? f = some d) (fuel : Nat) (rest : Bytes) :
+    ∃ m, tlBindings.methods.find? (fun m => m.name == Bind.camelGo f) = some m ∧
+      (∀ c fs bs, encode liteApi (.boxed d.result) (.sum c fs) = some bs → 3 * depthList fs + 5 ≤ fuel →
+        Bind.clientAnswer tlBindings fuel m (bs ++ rest)
+          = .ok (.result (Bind.rep liteApi (.boxed d.result) (.sum c fs)))) ∧
+      (∀ evs eb, encodeFields liteApi errorDecl.fields [] evs = some eb → 3 * depthList evs + 5 ≤ fuel →
+        Bind.clientAnswer tlBindings fuel m (le 4 errorDecl.id ++ eb ++ rest)
+          = .ok (.serverError (.tuple (Bind.repFields liteApi errorDecl.fields evs)))) := by
+  obtain ⟨m, hm, h1, h2⟩ := Bind.client_answer_eq wf_liteapi bindings_agree f d errorDecl hf liteapi_error_decl
+    liteapi_error_single fuel rest
+  refine ⟨m, hm, fun c fs bs henc hfuel => h1 c fs bs henc hfuel ?_, h2⟩
+  intro cd hcd
+  have hmem : d ∈ liteApi.funcs := List.mem_of_find?_eq_some hf
+  have hall := liteapi_no_error_id_clash
+  simp only [List.all_eq_true, bne_iff_ne, ne_eq] at hall
+  exact hall d hmem cd (Bind.mem_ctorsOf_of_ctorOf hcd).2.2
+
+/-- **decoder table**: `taggedRequestDecodeFunctions` of the current generated.go, applied to the bytes of any call of a
+lite_api.tl function (followed by anything), selects the entry of that function, which reports the function's id and
+name and returns the parameters through the request struct's `UnmarshalTL` -/
+theorem liteapi_decoder_table (f : String) (d : Decl) (hf : liteApi.func? f = some d) (ps : List Val) (bs rest : Bytes)
+    (fuel : Nat) (henc : encodeRequest liteApi f ps = some bs) (hfuel : 3 * depthList ps + 2 ≤ fuel) :
+    Bind.decoderTable tlBindings fuel (bs ++ rest)
+      = .ok (d.id, some (f, .tuple (Bind.repFields liteApi d.fields ps))) :=
+  Bind.decoder_table_eq wf_liteapi bindings_agree f d hf ps bs rest fuel henc hfuel
 
 /-! ### The regenerated schema value and its constructor ids
 
